@@ -99,4 +99,39 @@ PROPS = {
             {"name": "usecase", "run": "TestUseCaseSnapshots", "kind": "rapid", "checks": {Q: 4000, T: 100000}, "shards": {Q: 2, T: 8}},
         ],
     },
+    "C08": {
+        "pkg": "c08",
+        "rule": ("rapid state machine over a world with 3 peers using identical entity/feature numbers, 3 local server features (two list "
+                 "functions each), a local client feature and NodeManagement: subscribe / unsubscribe calls (valid, duplicate, wrong role, "
+                 "wrong type, unknown entity/feature, device omitted on either side, same addresses from another peer), data changes "
+                 "through SetData, UpdateData in every filter shape, a failing UpdateData, accepted and rejected remote writes. After every "
+                 "call: verdict = grant rule of the statement, registry = reference set, distinct ids, one event per success. After every "
+                 "data change the complete outbound trace of all peers must be exactly one notify per subscribed client feature with "
+                 "payload = DataCopy. Non-trivial: >=2 peers subscribed to the changed feature at a data change. Distinct by "
+                 "(operation sequence with outcomes, final registry)."),
+        "assumptions": ["special role is accepted on both sides of a subscription (as in the repository's NodeManagement fixture)",
+                        "Generic feature types and client addresses naming a foreign device are not generated (DESIGN §4 C08 NA)",
+                        "whether a remote write is accepted is observed from its result, not predicted (C03/C04 own the gate)"],
+        "runs": [
+            {"name": "subs", "run": "TestSubscriptions", "kind": "rapid", "checks": {Q: 2400, T: 80000}, "shards": {Q: 4, T: 16}, "steps": {Q: 20, T: 40}},
+        ],
+    },
+    "C09": {
+        "pkg": "c09",
+        "rule": ("rapid state machine (same world as C08, a fourth server feature of an already used type so that one client can hold "
+                 "several bindings): bind / unbind calls (valid, second binding on a bound feature by the same or another peer, wrong role / "
+                 "type, unknown addresses, omitted device, same addresses from another peer, right client with another server) checked "
+                 "against a reference registry with the single-binding rule, BindingsOnFeature <= 1 after every step, ids, events. "
+                 "Schedules: all interleavings of 2 and 3 bind requests for one server feature arriving on different connections are "
+                 "enumerated over the yield point between the single-binding check and the insertion; plus free-running contention "
+                 "rounds. Non-trivial: a client holds >=2 bindings or two clients contend for one feature; schedule: >=2 requests inside "
+                 "the window together. Distinct by (operation sequence with outcomes, final registry) / schedule choice vector."),
+        "assumptions": ["special role accepted on both sides; Generic types not generated",
+                        "schedule enumeration is exhaustive only over the instrumented window (build tag verif); elsewhere stress"],
+        "runs": [
+            {"name": "bindings", "run": "TestBindings", "kind": "rapid", "checks": {Q: 2400, T: 80000}, "shards": {Q: 4, T: 16}, "steps": {Q: 20, T: 40}},
+            {"name": "interleavings", "run": "TestBindInterleavings", "kind": "plain"},
+            {"name": "stress", "run": "TestBindStress", "kind": "plain", "shards": {Q: 2, T: 16}, "env": {"VERIF_ROUNDS": {Q: 300, T: 3000}}},
+        ],
+    },
 }
